@@ -361,6 +361,107 @@ pub fn corr(run: &mut Run) {
         }
     }
 
+    // ---- U: every bit of the shares a single party holds is uniform whatever the secret is. For ragged bit
+    // arrays (2..7 bits in the last byte) and small integer arrays, over 400 sharings of a FIXED secret every
+    // bit of every slot of every party's tuple must be 1 in 30%..70% of the sharings (8 standard deviations).
+    {
+        let mut rng = run.rng("U");
+        let n_u = 400usize;
+        let types: Vec<Type> = vec![
+            array_type(vec![3], BIT),
+            array_type(vec![2, 5], BIT),
+            array_type(vec![13], BIT),
+            array_type(vec![6], BIT),
+            array_type(vec![2], UINT8),
+            tuple_type(vec![array_type(vec![7], BIT), scalar_type(INT16)]),
+        ];
+        for t in types {
+            for ones in [false, true] {
+                let secret = if ones { Value::one_of_type(t.clone()).unwrap() } else { Value::zero_of_type(t.clone()) };
+                let mut counts: Vec<Vec<u32>> = vec![];
+                let mut broken = false;
+                for _ in 0..n_u {
+                    let seed = rng.seed16();
+                    let r = catch(|| -> ciphercore_base::errors::Result<Vec<Vec<u8>>> {
+                        let tv = TypedValue::new(t.clone(), secret.clone())?;
+                        let mut prng = PRNG::new(Some(seed))?;
+                        let ps = tv.get_local_shares_for_each_party(&mut prng)?;
+                        let mut out = vec![];
+                        for p in ps {
+                            let mut bytes = vec![];
+                            fn flat(v: &Value, out: &mut Vec<u8>) {
+                                match v.to_vector() {
+                                    Ok(vs) => {
+                                        for x in vs {
+                                            flat(&x, out);
+                                        }
+                                    }
+                                    Err(_) => out.extend(crate::vals::bytes_of(v)),
+                                }
+                            }
+                            flat(&p.value, &mut bytes);
+                            out.push(bytes);
+                        }
+                        Ok(out)
+                    });
+                    match r {
+                        Ok(Ok(parties)) => {
+                            if counts.is_empty() {
+                                counts = parties.iter().map(|b| vec![0u32; b.len() * 8]).collect();
+                            }
+                            for (i, bytes) in parties.iter().enumerate() {
+                                for (k, byte) in bytes.iter().enumerate() {
+                                    for bit in 0..8 {
+                                        if (byte >> bit) & 1 == 1 && 8 * k + bit < counts[i].len() {
+                                            counts[i][8 * k + bit] += 1;
+                                        }
+                                    }
+                                }
+                            }
+                        }
+                        _ => {
+                            broken = true;
+                            break;
+                        }
+                    }
+                }
+                let descr = format!("bit uniformity of each party's tuple: type {:?}, secret all-{}, {} sharings", t, if ones { "ones" } else { "zeros" }, n_u);
+                run.oracle_case(&descr, true);
+                run.count("U:types");
+                if broken {
+                    run.oracle_fail("C14:uniformity:error", descr);
+                    continue;
+                }
+                // meaningful bit positions: those that are 1 at least once over all sharings and parties (padding
+                // bits of ragged bit arrays are always 0 and are not part of the value)
+                let n_bits = counts[0].len();
+                let mut bad: Vec<String> = vec![];
+                for b in 0..n_bits {
+                    let tot: u32 = (0..3).map(|i| counts[i][b]).sum();
+                    if tot == 0 {
+                        continue;
+                    }
+                    for i in 0..3 {
+                        let c = counts[i][b];
+                        if (c as usize) * 10 < n_u * 3 || (c as usize) * 10 > n_u * 7 {
+                            bad.push(format!("party {} bit {}: 1 in {} of {}", i, b, c, n_u));
+                        }
+                    }
+                }
+                // a position that is never 1 for any party although the type has a value bit there would be
+                // skipped above: compare the number of live positions with the type's bit size (3 slots per party)
+                let live = (0..n_bits).filter(|b| (0..3).any(|i| counts[i][*b] > 0)).count();
+                let want_live = 3 * ciphercore_base::data_types::get_size_in_bits(t.clone()).unwrap_or(0) as usize;
+                if live != want_live {
+                    bad.push(format!("{} bit positions ever carry a 1, the three slots have {} value bits", live, want_live));
+                }
+                if !bad.is_empty() {
+                    run.oracle_fail("C14:shares-not-uniform", format!("{} : {}", descr, bad[..bad.len().min(6)].join("; ")));
+                }
+            }
+        }
+    }
+
     // ---- L: large leaves (≥ 512 bytes: the generator serves such requests in whole batches). The masks of
     // one sharing must be independent draws: among everything a SINGLE party holds (its two shares and its
     // junk slot) no aligned 8-byte window may occur twice — for independent uniform masks the chance is
